@@ -74,6 +74,8 @@ struct State {
     trace: Vec<Decision>,
     abort: bool,
     deadlock: Option<String>,
+    /// how often time had to "pass" (nobody runnable, a sleeper / timed waiter was woken) in this run
+    time_passes: u32,
     lock_sites: HashMap<usize, String>,
     /// lock-order edges (site held -> site wanted) with the thread names that produced them
     order_edges: BTreeMap<(String, String), BTreeSet<String>>,
@@ -85,6 +87,9 @@ struct State {
     preempted_inside_region: u64,
 }
 
+
+/// Far above what any terminating run needs (a few polls per outage, a dozen idle polls of the chain monitor).
+const TIME_PASSES_LIMIT: u32 = 1500;
 
 /// Picks the next thread to run. Must be called with the state locked.
 fn pick(st: &mut State) {
@@ -99,6 +104,19 @@ fn pick(st: &mut State) {
     if enabled.is_empty() {
         // time passes only when nobody can run: wake a sleeper
         if let Some(t) = st.threads.iter().position(|s| matches!(s, Status::Sleeping | Status::TimedWait(..))) {
+            st.time_passes += 1;
+            if st.time_passes > TIME_PASSES_LIMIT {
+                // a wait that is re-armed every time it runs out: the thread is as stuck as in a circular wait, it only
+                // burns time instead of sleeping (decided structurally, like the circular wait below)
+                let what = match st.threads[t] {
+                    Status::TimedWait(cv, _) => format!("{} keeps going back to its timed wait on condvar {} ({} times) and nobody else can run", st.names[t], st.lock_sites.get(&cv).cloned().unwrap_or_default(), st.time_passes),
+                    _ => format!("{} keeps going back to sleep ({} times) and nobody else can run", st.names[t], st.time_passes),
+                };
+                st.current = None;
+                st.deadlock = Some(what);
+                st.abort = true;
+                return;
+            }
             st.current = Some(t);
             st.last_running = Some(t);
             return;
